@@ -36,6 +36,7 @@ def base_configs(tier):
              optional={'pc_features': 'no'}),
         dict(base, sym=['spikes'], label='', factor=1.0, wm='I', raw=True, ncd=4, optional={'raw': 'yes'},
              extras=['temp_wh.dat', 'cluster_KSLabel.tsv']),
+        dict(base, sym=['spikes'], label='', factor=0.5, wm='diag', first_factor=2.0, optional={'pc_features': 'no'}),
         dict(base, sym=[], label='probe01', factor=1.0, wm='I', colvec=True,
              positions=[[0.0, 0.0], [20.0, 0.0], [0.0, 20.0]]),      # distance ties
     ]
@@ -77,6 +78,9 @@ def run_conversion(e, pkg, cfg, out='/alf'):
     creator = alf.EphysAlfCreator(m)
     c.creator = creator
     c.out = out
+    if cfg.get('first_factor'):
+        # an earlier export of the same model with another unit factor
+        creator.convert(vfs.VPath(out + '0'), label='', ampfactor=cfg['first_factor'])
     c.result = creator.convert(vfs.VPath(out), label=cfg['label'], ampfactor=cfg['factor'])
     return c
 
@@ -119,6 +123,8 @@ class RealConv(object):
         self.alf = alf
 
     def convert(self):
+        if self.rd.cfg.get('first_factor'):
+            self.creator.convert(self.out + '0', label='', ampfactor=self.rd.cfg['first_factor'])
         return self.creator.convert(self.out, label=self.label, ampfactor=self.factor)
 
     def load(self, stem):
